@@ -1,5 +1,5 @@
 """property id -> rules, explanation of what is / is not decided"""
-from rules import r_errdrop, r_coord, r_keyid, r_opcode, r_doaction, r_cancel, r_idle, r_loop, r_traverse, r_repeat, r_chv2, r_wait, r_macro, r_seq, r_override, r_reload, r_pipeline, r_dynmacro, r_vkey, r_layers, r_panic, r_prodcons, r_span, r_rec, r_evict, r_coordspace
+from rules import r_lock, r_errdrop, r_coord, r_keyid, r_opcode, r_doaction, r_cancel, r_idle, r_loop, r_traverse, r_repeat, r_chv2, r_wait, r_macro, r_seq, r_override, r_reload, r_pipeline, r_dynmacro, r_vkey, r_layers, r_panic, r_prodcons, r_span, r_rec, r_evict, r_coordspace
 
 PROPS = {
     "C01": {
@@ -11,7 +11,7 @@ PROPS = {
         "not_decided": "bounded-time liveness over all histories; diff logic prev_keys/cur_keys; timeout arithmetic",
     },
     "C02": {
-        "rules": [r_panic.run_rt, r_prodcons.run, r_rec.run_rt, r_coordspace.run],
+        "rules": [r_panic.run_rt, r_prodcons.run, r_rec.run_rt, r_coordspace.run, r_lock.run],
         "explanation": "Decides: (R-PANIC/rt) every panic-capable site (bounds check, slice/Vec index, unsigned subtraction, narrow "
                        "addition/multiplication, negation, division, shift, unwrap/expect, assert!/unreachable!/panic!) in the "
                        "functions reachable from the event/tick entry points is either discharged by the guard data-flow (constant "
@@ -19,7 +19,11 @@ PROPS = {
                        "closure fact inheritance) or matched by a reviewed invariant in rules/panic_tables.py; anything else is "
                        "reported naming the site. (R-PRODCONS) each parser-side bound that run-time arithmetic relies on "
                        "(non-zero intervals and timeouts, non-empty tap-dance lists, chords-v2 min idle >= 5) is re-derived by "
-                       "data-flow at every aggregate / field store that produces the value.",
+                       "data-flow at every aggregate / field store that produces the value. (R-LOCK) no (non re-entrant) mutex is "
+                       "locked again on the thread that still holds its guard: guard live ranges vs. the call graph, lock wrappers "
+                       "such as zch() included, closures given to thread::spawn excluded. Library calls with panicking "
+                       "preconditions (heapless extend, ArrayDeque::drain, slice::swap, clone_from_slice, RefCell::borrow_mut, "
+                       "bytemuck::cast_slice, chunks/windows of size 0) are part of the census.",
         "not_decided": "value-level invariants listed in the reviewed table (each spelled out in the evidence); bounded work per "
                        "millisecond; stack depth (recursion through rpt-any is a known limitation, see DESIGN.md); std / dependency "
                        "internals. (R-REC/rt) recursive calls on the event path take their action argument from a sub-structure of the "
@@ -34,7 +38,10 @@ PROPS = {
                        "new_from_file, the s-expression Debug impls and the ParseError -> miette conversion is discharged by the "
                        "guard data-flow (argument-count checks before indexing, chunks_exact, range loops, validator summaries, "
                        "caller preconditions, closure inheritance) or matched by a reviewed invariant; anything else is reported "
-                       "naming the site.",
+                       "naming the site. (R-ERRDROP) every ParseError / anyhow error / Err(..) the parser constructs is returned or "
+                       "stored, never built and dropped (a dropped error means the check it belongs to does not stop the parser). "
+                       "(R-COORDSPACE) layer indexes exist only for fewer than MAX_LAYERS layers and a virtual key's index is below "
+                       "KEYS_IN_ROW from the moment it is stored.",
         "not_decided": "termination of loops, stack depth (self-referential defvar recursion is a known limitation), miette internals, "
                        "char-boundary safety of span slicing beyond the reviewed lexer invariant",
     },
